@@ -48,7 +48,7 @@ def step(self, op):
         else: out = self._tx(op)
     except HarnessSkip as e:
         self.c('skip.' + str(e)[:24])
-        out = 'skipped'
+        out = 'skipped_obtain_raised' if str(e) == 'obtain raised' else 'skipped'
     if self.session is not None and not self.diverged:
         self._learn_auto_pks(strict=False)
         d = self.walk_model()
@@ -509,7 +509,7 @@ def _tx(self, op):
 
 # ---------------------------------------------------------------------------
 def _obs(self, what, value):
-    self.trace.append((what, value))
+    self.trace.append((self.step_no, what, value))
 
 
 def _canon_oid(self, oid):
